@@ -44,6 +44,21 @@ def _split_cases(draw, tier):
             "read": draw(st.booleans()), "binsearch": draw(st.integers(0, 3)) == 0}
 
 
+def _sampled_before(obj, mode):
+    """The caller sampled the input before the operation: the whole domain (mode 1) or, with the documented start/stop keywords,
+    the middle half of it (mode 2).  Returns a copy of the points the input then reports."""
+    if not mode:
+        return None
+    obj.delta = 0.25
+    if mode == 2:
+        doms = [obj.domain] if obj.pdimension == 1 else list(obj.domain)
+        kw = {}
+        for name, (a, b) in zip(("",) if obj.pdimension == 1 else ("_u", "_v"), doms):
+            kw["start" + name], kw["stop" + name] = a + 0.25 * (b - a), a + 0.75 * (b - a)
+        obj.evaluate(**kw)
+    return [list(q) for q in obj.evalpts]
+
+
 def _kw(case):
     # the documented alternative span search of the split / decompose functions
     return {"find_span_func": helpers.find_span_binsearch} if case.get("binsearch") else {}
@@ -74,9 +89,7 @@ def check_split(case, ctx):
         kind = "knot"
         ctx.label("parameter-identified-with-a-knot-by-tolerance")
     ctx.label("param-is-knot-of-other-direction", case["where"][0] == "other" and pdim > 1)
-    if case["read"]:
-        obj.delta = 0.25
-        _ = obj.evalpts
+    sampled = _sampled_before(obj, (1 + len(d["P"]) % 2) if case["read"] else 0)
     before = build.snapshot(obj)
     views_before = ([list(p) for p in obj.ctrlpts], list(obj.weights) if obj.rational else None)
     dom = R.domain()
@@ -104,6 +117,9 @@ def check_split(case, ctx):
     ctx.check(build.snapshot(obj) == before, "input-modified", "split modified its input")
     views_after = ([list(p) for p in obj.ctrlpts], list(obj.weights) if obj.rational else None)
     ctx.check(views_after == views_before, "input-modified", "after the split the input reports other control points / weights (%d points, before %d)" % (len(views_after[0]), len(views_before[0])))
+    if sampled is not None:
+        now = [list(q) for q in obj.evalpts]
+        ctx.check(now == sampled, "input-modified", "after the split the input reports other evaluated points (%d, before %d)" % (len(now), len(sampled)))
     for i, pc in enumerate(pieces):
         ctx.check(pc is not obj, "piece-is-input", "split returned the input object")
         ctx.check(bool(pc.rational) == d["rational"], "rationality", "piece %d rational=%r" % (i, pc.rational))
@@ -132,6 +148,7 @@ def check_decompose(case, ctx):
     obj = build.make(d)
     R = build.exact_from(d, obj)
     pdim = len(d["degree"])
+    sampled = _sampled_before(obj, len(d["P"]) % 3)
     before = build.snapshot(obj)
     views_before = ([list(p) for p in obj.ctrlpts], list(obj.weights) if obj.rational else None)
     kvs, szs = build.kvs_of(obj), build.sizes_of(obj)
@@ -160,6 +177,9 @@ def check_decompose(case, ctx):
     ctx.check(build.snapshot(obj) == before, "input-modified", "decomposition modified its input")
     ctx.check(([list(p) for p in obj.ctrlpts], list(obj.weights) if obj.rational else None) == views_before, "input-modified",
               "after the decomposition the input reports other control points / weights")
+    if sampled is not None:
+        now = [list(q) for q in obj.evalpts]
+        ctx.check(now == sampled, "input-modified", "after the decomposition the input reports other evaluated points (%d, before %d)" % (len(now), len(sampled)))
     ctx.check(len(pieces) == len(boxes), "piece-count",
               "decompose(%s) returned %d pieces, the knot vectors have %d non-empty intervals (kv %r)" % (dirs, len(pieces), len(boxes), kvs))
     for i, (pc, box) in enumerate(zip(pieces, boxes)):
